@@ -19,7 +19,7 @@ from .. import jweworld as JW
 
 ID = "C15"
 LEVEL = "fault_enumeration"
-RULE = ("cells = parameter (14 registered + 8 algorithm-specific + caller-registered + unknown) x value (one representative of "
+RULE = ("cells = parameter (14 registered + 8 algorithm-specific + caller-registered + 3 unknown names) x value (one representative of "
         "every JSON type and shape: 15 kinds, plus 'absent') x position (protected / unprotected / per-recipient) x operation "
         "(12 JWS incl. RFC 7797, 6 JWE over A128KW / ECDH-ES / PBES2 / A128GCMKW / ECDH-1PU) x strict on/off x caller registry "
         "(none / optional int / required int), plus shadow cells (a mistyped kid / typ / x5c / jku in one position of a JSON serialisation, a well-typed member of the same name in another); both tiers enumerate the cell space completely (400 slices); consuming cells "
@@ -44,7 +44,9 @@ ALG_SPECIFIC = {"ECDH-ES": {"epk": "jwk", "apu": "str", "apv": "str"}, "PBES2-HS
                 "A128GCMKW": {"iv": "str", "tag": "str"}, "ECDH-1PU": {"epk": "jwk", "apu": "str", "apv": "str", "skid": "str"}, "A128KW": {}}
 REQUIRED_ON_CONSUME = {"ECDH-ES": ["epk"], "PBES2-HS256+A128KW": ["p2s", "p2c"], "A128GCMKW": ["iv", "tag"], "ECDH-1PU": ["epk"], "A128KW": []}
 PARAMS = ["kid", "x5t", "x5t#S256", "typ", "cty", "jku", "x5u", "jwk", "x5c", "crit", "b64", "epk", "apu", "apv", "p2s", "p2c", "iv", "tag", "skid",
-          "zzz", "alg", "enc"]
+          "zzz", "alg", "enc",
+          # unknown names of other shapes: a collision-resistant (URI) name, a vendor prefix - unknown is unknown
+          "http://openbanking.org.uk/iat", "x-vendor.flag"]
 JWS_OPS = ["jws.serialize_compact", "jws.serialize_json.flat", "jws.serialize_json.general", "7797.serialize_compact", "7797.serialize_json",
            "jws.deserialize_compact", "jws.extract+validate", "jws.deserialize_json.flat", "jws.deserialize_json.general",
            "7797.deserialize_compact", "7797.deserialize_json", "jwt.decode"]
@@ -78,12 +80,13 @@ def header_ok(merged: dict, family: str, direction: str, alg, strict: bool, call
     """-> True (must be accepted) | False (must be refused) | None (don't-care)"""
     dontcare = False
     plain_at_7797 = bool(cell and cell.get("regclass") == "plain" and r7797)
+    r7797_registry_at_plain = bool(cell and cell.get("regclass") == "r7797+algorithms")
     if "alg" not in merged or not isinstance(merged["alg"], str):
         return False
     if family == "jwe" and ("enc" not in merged or not isinstance(merged["enc"], str)):
         return False
     registered = dict(TYPES)
-    if not (family == "jws" and r7797) or plain_at_7797:
+    if not (family == "jws" and (r7797 or r7797_registry_at_plain)) or plain_at_7797:
         registered.pop("b64")
     spec = ALG_SPECIFIC.get(alg, {}) if family == "jwe" else {}
     registered.update(spec)
@@ -123,7 +126,7 @@ def header_ok(merged: dict, family: str, direction: str, alg, strict: bool, call
         for name in crit:
             if name not in merged:
                 return False
-    if "b64" in merged and family == "jws" and r7797:
+    if "b64" in merged and family == "jws" and (r7797 or r7797_registry_at_plain):
         crit = merged.get("crit")
         if plain_at_7797:
             # the RFC 7797 functions act on a *protected* b64 whatever registry they were given: its type and the crit rule hold;
@@ -187,7 +190,11 @@ def execute(node: Node, cell: dict):
     strict, caller = cell["strict"], cell["caller"]
     family = "jwe" if op.startswith("jwe.") else "jws"
     r7797 = op.startswith("7797.")
-    reg = registry_for(family, strict, caller, r7797, cell.get("regclass") == "plain")
+    reg = registry_for(family, strict, caller, r7797 or cell.get("regclass") == "r7797+algorithms", cell.get("regclass") == "plain")
+    kw = {"registry": reg}
+    if cell.get("regclass") == "r7797+algorithms":
+        # the RFC 7797 registry class handed to the plain functions, the allow-list beside it as a list
+        kw["algorithms"] = list(rjws.ALL_ALGS)
     consume = any(x in op for x in ("deserialize", "decrypt", "decode", "validate"))
     if family == "jws":
         prot = {"alg": "HS256"}
@@ -220,15 +227,15 @@ def execute(node: Node, cell: dict):
                         if cell.get("pairs"):
                             member["header"] = _pairs(member["header"])
                     if op == "jws.serialize_compact":
-                        out = jws.serialize_compact(copy.deepcopy(prot), payload, node.joct, registry=reg)
+                        out = jws.serialize_compact(copy.deepcopy(prot), payload, node.joct, **kw)
                     elif op == "jws.serialize_json.flat":
-                        out = jws.serialize_json(member, payload, node.joct, registry=reg)
+                        out = jws.serialize_json(member, payload, node.joct, **kw)
                     elif op == "jws.serialize_json.general":
-                        out = jws.serialize_json([member], payload, node.joct, registry=reg)
+                        out = jws.serialize_json([member], payload, node.joct, **kw)
                     elif op == "7797.serialize_compact":
-                        out = rfc7797.serialize_compact(copy.deepcopy(prot), payload, node.joct, registry=reg)
+                        out = rfc7797.serialize_compact(copy.deepcopy(prot), payload, node.joct, **kw)
                     else:
-                        out = rfc7797.serialize_json(member, payload, node.joct, registry=reg)
+                        out = rfc7797.serialize_json(member, payload, node.joct, **kw)
                     return ("ok", out), merged, family, "produce", None, r7797
                 # the non-conformant peer signs whatever header
                 # only the RFC 7797 entry points give "b64" a meaning; elsewhere it is just an unregistered member
@@ -244,21 +251,21 @@ def execute(node: Node, cell: dict):
                     tgt_ = tok if form == "flat" else tok["signatures"][0]
                     tgt_["header"] = _pairs(tgt_["header"])
                 if op == "jws.deserialize_compact":
-                    out = jws.deserialize_compact(tok, node.joct, registry=reg)
+                    out = jws.deserialize_compact(tok, node.joct, **kw)
                 elif op == "jws.extract+validate":
                     obj = jws.extract_compact(tok.encode())
-                    if not jws.validate_compact(obj, node.joct, registry=reg):
+                    if not jws.validate_compact(obj, node.joct, **kw):
                         raise ValueError("validate_compact returned False")
                     out = obj
                 elif op.startswith("jws.deserialize_json"):
-                    out = jws.deserialize_json(tok, node.joct, registry=reg)
+                    out = jws.deserialize_json(tok, node.joct, **kw)
                 elif op == "7797.deserialize_compact":
-                    out = rfc7797.deserialize_compact(tok, node.joct, registry=reg)
+                    out = rfc7797.deserialize_compact(tok, node.joct, **kw)
                 elif op == "7797.deserialize_json":
-                    out = rfc7797.deserialize_json(tok, node.joct, registry=reg)
+                    out = rfc7797.deserialize_json(tok, node.joct, **kw)
                 else:
                     tok = rjws.make_compact(text, b'{"sub":"x"}', "HS256", node.oct, b64_payload=b64flag)
-                    out = jwt.decode(tok, node.joct, registry=reg)
+                    out = jwt.decode(tok, node.joct, **kw)
                 return ("ok", out), merged, family, "consume", None, r7797
         except Exception as e:
             return ("exc", e), merged, family, "consume" if consume else "produce", None, r7797
@@ -458,6 +465,17 @@ def all_cells():
                     for strict in (True, False):
                         cells.append({"op": op, "pos": pos, "param": param, "vname": vname, "value": value, "present": True,
                                       "strict": strict, "caller": "none", "regclass": "plain"})
+    # the RFC 7797 registry class at the plain functions, with the allow-list given beside it: b64 is a known boolean there and
+    # still has to be announced in crit
+    for op in JWS_OPS:
+        if op.startswith("7797."):
+            continue
+        for pos in (["protected", "unprotected"] if "json" in op else ["protected"]):
+            for param in ("b64", "crit", "kid", "zzz"):
+                for vname, value in VALUES:
+                    for strict in (True, False):
+                        cells.append({"op": op, "pos": pos, "param": param, "vname": vname, "value": value, "present": True,
+                                      "strict": strict, "caller": "none", "regclass": "r7797+algorithms"})
     # 'shadow' cells: a mistyped registered parameter in one position, a well-typed one of the same name in another
     bad = [v for v in VALUES if v[0] in ("int", "null", "list-int", "dict-empty", "true")]
     for op in JWS_OPS:
